@@ -14,13 +14,25 @@
                                 mutable state shared with other repetitions), every chunking — every
                                 number of worker processes — gives the same matrices, equal to the plain
                                 map over the environments;
-  * `current_shared_rng`      — the model of the CURRENT code does NOT satisfy that hypothesis, and the
-                                property fails for it: concrete runs where two process counts assign
-                                different generator draws to the repetitions, and where all repetitions of
-                                a parallel run see the same draw (the same hidden game).
+  * `current_shared_rng`      — the model of the code before commit "fix: one child random stream per
+    (`current_shared_solver_rng`, environment" does NOT satisfy that hypothesis, and the property fails for
+     `current_not_isolated`)    it: concrete runs where two process counts assign different generator draws
+                                to the repetitions, and where all repetitions of a parallel run see the same
+                                draw (the same hidden game);
+  * `repaired_draws`          — the model of the code AFTER that commit (ICG.Model.SearchRepaired: one child
+                                stream per environment, a draw = (stream, position)): for every chunking
+                                of the task list, in the sequential branch, for every solver, repetition j
+                                is evaluated on draw (j, 2);
+  * `repaired_distinct`       — (j, 2) ≠ (j', 2) for j ≠ j' (`repaired_draws_nodup`: pairwise, and never a
+                                construction draw);
+  * `repaired_isolated`,      — the repaired model is `Isolated` for every solver without mutable state,
+    `repaired_schedule_free`    hence `evaluate()` = the plain map over the environments for EVERY `procs`;
+  * `current_vs_repaired`     — both models decided on the same instance (4 repetitions, 1 vs 2 processes);
+    `repaired_solver_rng_still_shared` — the random solver's own source is untouched by the repair.
   (That the ids are distinct and explorable is a property of the environment: C09.)
 -/
 import ICG.Lemmas.Search
+import ICG.Model.SearchRepaired
 
 namespace ICG.C12
 open ICG ICG.Search
@@ -240,14 +252,15 @@ theorem isolated_seq_eq_par (E : EnvOps ε ρ α) (mk : ρ → ε × ρ) (next :
 
 end schedule
 
-/-! ### the CURRENT code: one generator RNG shared by all environments -/
+/-! ### model of the code before commit "fix: one child random stream per environment":
+    one generator RNG shared by all environments -/
 
 /-- generator draw seen by each repetition (row 0 of `poolDraws`) -/
 def drawsSeen (reps procs : Nat) : Option (List Int) :=
   (poolDraws 2 0 reps procs).toOption.map (fun rows => rows.map (fun r => r.1.headD 0))
 
-/-- **C12_current_shared_rng** — the negation for the model of the current code (`ICG_Gym.__init__` draws
-    twice, `eval_one` once, all from the instance's single RNG):
+/-- **C12_current_shared_rng** — the negation for the model of the code before commit "fix: one child random
+    stream per environment" (`ICG_Gym.__init__` draws twice, `eval_one` once, all from the instance's single RNG):
     with 1 process repetition j sees draw 3j+2 — four different hidden games; with 2 processes all four
     repetitions see draw 8 — one hidden game replayed four times; with 16 repetitions and 2 processes the
     chunks have two tasks and every chunk replays draws 32, 33.  So the result depends on the number of
@@ -260,15 +273,17 @@ theorem current_shared_rng :
     drawsSeen 16 1 = some [2, 5, 8, 11, 14, 17, 20, 23, 26, 29, 32, 35, 38, 41, 44, 47] := by
   decide
 
-/-- the solver's own random source (solvers/random.py) is shared the same way: with 2 steps per
+/-- (model of the code before commit "fix: one child random stream per environment"; that commit does not
+    touch the solver, see `repaired_solver_rng_still_shared`.)
+    the solver's own random source (solvers/random.py) is shared the same way: with 2 steps per
     repetition, sequentially repetition j uses solver draws 2j, 2j+1; in a pool every chunk restarts at 0. -/
 theorem current_shared_solver_rng :
     (poolDraws 2 2 3 1).toOption.map (fun rows => rows.map (·.2)) = some [[0, 1], [2, 3], [4, 5]] ∧
     (poolDraws 2 2 3 2).toOption.map (fun rows => rows.map (·.2)) = some [[0, 1], [0, 1], [0, 1]] := by
   decide
 
-/-- and the current model is indeed not `Isolated`: the same environment evaluated from two generator
-    states gives different rows -/
+/-- and the model of the code before commit "fix: one child random stream per environment" is indeed not
+    `Isolated`: the same environment evaluated from two generator states gives different rows -/
 theorem current_not_isolated :
     ¬ ∃ g, Isolated (drawEnv 2).1 drawSolver 0 g := by
   rintro ⟨g, hg⟩
@@ -276,6 +291,513 @@ theorem current_not_isolated :
   have h2 := hg (1, 0) 0
   rw [← h2] at h1
   revert h1
+  decide
+
+/-! ### the REPAIRED code: one child generator per environment
+
+Model: `ICG.Model.SearchRepaired` (`drawRepaired`, `repairedEnv`, `repairedMk`, `mkEnvsRepaired`,
+`evaluateRepaired` = the unchanged `evaluate` instantiated with them). -/
+section repaired
+variable {ς : Type}
+
+theorem Draw.neg_neg (d : Draw) : - -d = d := by
+  cases d with
+  | mk a b =>
+    show Draw.mk (- -a) (- -b) = Draw.mk a b
+    rw [Int.neg_neg, Int.neg_neg]
+
+/-- draw identities are faithful: different (stream, position) pairs are different draws -/
+theorem drawRepaired_inj {j k j' k' : Nat} : drawRepaired j k = drawRepaired j' k' ↔ j = j' ∧ k = k' := by
+  simp only [drawRepaired, Draw.mk.injEq]
+  omega
+
+/-- the environments the parent constructs, from spawn counter `c`: environment `j` owns stream `c + j`,
+    has consumed its positions 0 and 1; the counter ends at `c + reps` -/
+theorem mkEnvs_repaired : ∀ (reps c : Nat),
+    mkEnvs repairedMk reps c = ((List.range reps).map (fun j => (repairedMk (c + j)).1), c + reps) := by
+  intro reps
+  induction reps with
+  | zero => intro c; rfl
+  | succ reps ih =>
+    intro c
+    simp only [mkEnvs, ih (repairedMk c).2, List.range_succ_eq_map, List.map_cons, List.map_map]
+    refine Prod.ext ?_ ?_
+    · simp only [Nat.add_zero, List.cons.injEq, true_and]
+      apply List.map_congr_left
+      intro j _
+      simp only [repairedMk, Function.comp]
+      rw [show c + 1 + j = c + (j + 1) by omega]
+    · simp only [repairedMk]; omega
+
+theorem mkEnvsRepaired_eq (reps : Nat) :
+    mkEnvsRepaired reps =
+      (List.range reps).map (fun j => ({ stream := j, pos := 2, game := drawRepaired j 1 } : RepEnv)) := by
+  simp only [mkEnvsRepaired, mkEnvs_repaired, repairedMk, Nat.zero_add]
+
+theorem episodes_repaired (next : ς → RepEnv → Except Err (ς × Nat)) :
+    ∀ (f : Nat) (s : ς) (e : RepEnv) (s' : ς) (gs : List Draw) (cs : List Nat),
+      episodes repairedEnv next f s e = .ok (s', gs, cs) → gs = List.replicate f e.game ∧ cs.length = f := by
+  intro f
+  induction f with
+  | zero =>
+    intro s e s' gs cs h
+    simp only [episodes, Except.ok.injEq, Prod.mk.injEq] at h
+    obtain ⟨_, rfl, rfl⟩ := h
+    exact ⟨rfl, rfl⟩
+  | succ f ih =>
+    intro s e s' gs cs h
+    simp only [episodes] at h
+    cases hn : next s e with
+    | error err => rw [hn] at h; cases h
+    | ok p =>
+      obtain ⟨s1, a⟩ := p
+      rw [hn] at h
+      simp only [repairedEnv, Bool.false_eq_true, ↓reduceIte] at h
+      cases hr : episodes repairedEnv next f s1 e with
+      | error err => simp only [repairedEnv] at hr; rw [hr] at h; cases h
+      | ok w =>
+        obtain ⟨s2, gs', cs'⟩ := w
+        obtain ⟨h1, h2⟩ := ih s1 e s2 gs' cs' hr
+        simp only [repairedEnv] at hr
+        rw [hr] at h
+        simp only [Except.ok.injEq, Prod.mk.injEq] at h
+        obtain ⟨_, rfl, rfl⟩ := h
+        exact ⟨by rw [h1, Draw.neg_neg, List.replicate_succ], by simp only [List.length_cons, h2]⟩
+
+/-- one repetition under the repaired plumbing, from ANY shared state and for ANY solver: the spawn
+    counter is left alone, and every gap row shows the next draw of the environment's own stream -/
+theorem evalOne_repaired (next : ς → RepEnv → Except Err (ς × Nat)) (limit : Nat)
+    (st st' : Nat × ς) (env : RepEnv) (G : List Draw) (I : List Nat)
+    (h : evalOne repairedEnv next limit st env = .ok (st', (G, I))) :
+    st'.1 = st.1 ∧ G = List.replicate (limit + 1) (drawRepaired env.stream env.pos) ∧ I.length = limit := by
+  simp only [evalOne] at h
+  cases hep : episodes repairedEnv next limit st.2 (repairedEnv.reset env st.1).1 with
+  | error err => rw [hep] at h; cases h
+  | ok w =>
+    obtain ⟨s, gs, cs⟩ := w
+    rw [hep] at h
+    simp only [Except.ok.injEq, Prod.mk.injEq] at h
+    obtain ⟨rfl, rfl, rfl⟩ := h
+    obtain ⟨h1, h2⟩ := episodes_repaired next limit st.2 _ s gs cs hep
+    refine ⟨rfl, ?_, ?_⟩
+    · rw [h1]
+      simp only [repairedEnv, Draw.neg_neg, List.length_replicate, Nat.sub_self, List.replicate_zero,
+        List.append_nil, List.replicate_succ]
+    · simp only [List.length_append, List.length_replicate, h2, Nat.sub_self, Nat.add_zero]
+
+/-! generic pool facts: a per-task fact about the result survives every chunking; total tasks give a
+    total pool -/
+
+theorem runChunk_map_of {σ τ ρ ε β : Type} {step : σ → τ → Except ε (σ × ρ)} {π : ρ → β} {h : τ → β}
+    (H : ∀ s t s' r, step s t = .ok (s', r) → π r = h t) :
+    ∀ (ts : List τ) (s : σ) (rs : List ρ), runChunk step s ts = .ok rs → rs.map π = ts.map h := by
+  intro ts
+  induction ts with
+  | nil => intro s rs hr; simp only [runChunk, Except.ok.injEq] at hr; subst hr; rfl
+  | cons t ts ih =>
+    intro s rs hr
+    simp only [runChunk] at hr
+    cases hst : step s t with
+    | error e => rw [hst] at hr; cases hr
+    | ok p =>
+      obtain ⟨s', r⟩ := p
+      rw [hst] at hr
+      simp only at hr
+      cases hrest : runChunk step s' ts with
+      | error e => rw [hrest] at hr; cases hr
+      | ok rs' =>
+        rw [hrest] at hr
+        simp only [Except.ok.injEq] at hr
+        subst hr
+        simp only [List.map_cons, H s t s' r hst, ih s' rs' hrest]
+
+theorem runPool_map_of {σ τ ρ ε β : Type} {step : σ → τ → Except ε (σ × ρ)} {π : ρ → β} {h : τ → β}
+    (H : ∀ s t s' r, step s t = .ok (s', r) → π r = h t) (snapshot : σ) :
+    ∀ (chunks : List (List τ)) (rs : List ρ), runPool step snapshot chunks = .ok rs →
+      rs.map π = chunks.flatten.map h := by
+  intro chunks
+  induction chunks with
+  | nil => intro rs hr; simp only [runPool, Except.ok.injEq] at hr; subst hr; rfl
+  | cons c cs ih =>
+    intro rs hr
+    simp only [runPool] at hr
+    cases hc : runChunk step snapshot c with
+    | error e => rw [hc] at hr; cases hr
+    | ok r =>
+      rw [hc] at hr
+      simp only at hr
+      cases hcs : runPool step snapshot cs with
+      | error e => rw [hcs] at hr; cases hr
+      | ok rs' =>
+        rw [hcs] at hr
+        simp only [Except.ok.injEq] at hr
+        subst hr
+        simp only [List.map_append, List.flatten_cons, runChunk_map_of H c snapshot r hc, ih rs' hcs]
+
+theorem runChunk_total {σ τ ρ ε : Type} {step : σ → τ → Except ε (σ × ρ)}
+    (H : ∀ s t, ∃ p, step s t = .ok p) : ∀ (ts : List τ) (s : σ), ∃ rs, runChunk step s ts = .ok rs := by
+  intro ts
+  induction ts with
+  | nil => intro s; exact ⟨[], rfl⟩
+  | cons t ts ih =>
+    intro s
+    obtain ⟨⟨s', r⟩, hp⟩ := H s t
+    obtain ⟨rs, hrs⟩ := ih s'
+    exact ⟨r :: rs, by simp only [runChunk, hp, hrs]⟩
+
+theorem runPool_total {σ τ ρ ε : Type} {step : σ → τ → Except ε (σ × ρ)}
+    (H : ∀ s t, ∃ p, step s t = .ok p) (snapshot : σ) :
+    ∀ (chunks : List (List τ)), ∃ rs, runPool step snapshot chunks = .ok rs := by
+  intro chunks
+  induction chunks with
+  | nil => exact ⟨[], rfl⟩
+  | cons c cs ih =>
+    obtain ⟨r, hr⟩ := runChunk_total H c snapshot
+    obtain ⟨rs, hrs⟩ := ih
+    exact ⟨r ++ rs, by simp only [runPool, hr, hrs]⟩
+
+/-- the sequential branch, from any spawn counter `c` -/
+theorem evaluateSeq_repaired (next : ς → RepEnv → Except Err (ς × Nat)) (limit : Nat) :
+    ∀ (reps c : Nat) (s : ς) (st' : Nat × ς) (rows : List (List Draw × List Nat)),
+      evaluateSeq repairedEnv repairedMk next limit reps (c, s) = .ok (st', rows) →
+      rows.map (·.1) = (List.range reps).map (fun j => List.replicate (limit + 1) (drawRepaired (c + j) 2)) := by
+  intro reps
+  induction reps with
+  | zero =>
+    intro c s st' rows h
+    simp only [evaluateSeq, Except.ok.injEq, Prod.mk.injEq] at h
+    obtain ⟨_, rfl⟩ := h
+    rfl
+  | succ reps ih =>
+    intro c s st' rows h
+    simp only [evaluateSeq] at h
+    cases h1 : evalOne repairedEnv next limit ((repairedMk c).2, s) (repairedMk c).1 with
+    | error e => rw [h1] at h; cases h
+    | ok p =>
+      obtain ⟨st1, G, I⟩ := p
+      rw [h1] at h
+      simp only at h
+      obtain ⟨hc, hG, _⟩ := evalOne_repaired next limit _ st1 _ G I h1
+      obtain ⟨c1, s1⟩ := st1
+      simp only at hc
+      subst hc
+      cases h2 : evaluateSeq repairedEnv repairedMk next limit reps ((repairedMk c).2, s1) with
+      | error e => rw [h2] at h; cases h
+      | ok w =>
+        obtain ⟨st2, rest⟩ := w
+        rw [h2] at h
+        simp only [Except.ok.injEq, Prod.mk.injEq] at h
+        obtain ⟨_, rfl⟩ := h
+        have := ih (repairedMk c).2 s1 st2 rest h2
+        simp only [List.map_cons, this, hG, List.range_succ_eq_map, List.map_map, repairedMk,
+          Nat.add_zero, List.cons.injEq, true_and]
+        apply List.map_congr_left
+        intro j _
+        simp only [Function.comp]
+        rw [show c + 1 + j = c + (j + 1) by omega]
+
+/-- **C12_repaired_draws** — under the repaired plumbing, for EVERY solver (with or without state of its
+    own) and every `limit`:
+    (1) for EVERY partition `chunks` of the task list `mkEnvsRepaired reps` into pool chunks — every
+        number of worker processes and every chunk size — started from any snapshot of the shared
+        objects, and
+    (2) for `evaluate()` itself with every `procs` (`procs ≤ 1`: the sequential branch with its lazy
+        construction; `procs > 1`: the pool with CPython's chunking),
+    if the call returns, then repetition `j`'s gap rows all show draw `(j, 2)`: its hidden game is the
+    third game of the stream spawned `j`-th, independently of the process count.
+    (`repaired_total` below: the call does return whenever the solver does.) -/
+theorem repaired_draws (next : ς → RepEnv → Except Err (ς × Nat)) (limit reps : Nat) :
+    (∀ (snapshot : Nat × ς) (chunks : List (List RepEnv)) (rows : List (List Draw × List Nat)),
+        chunks.flatten = mkEnvsRepaired reps →
+        runPool (evalOne repairedEnv next limit) snapshot chunks = .ok rows →
+        rows.map (·.1) = (List.range reps).map (fun j => List.replicate (limit + 1) (drawRepaired j 2))) ∧
+    (∀ (procs : Nat) (s : ς) (rows : List (List Draw × List Nat)),
+        evaluateRepaired next limit reps procs s = .ok rows →
+        rows.map (·.1) = (List.range reps).map (fun j => List.replicate (limit + 1) (drawRepaired j 2))) := by
+  have pool : ∀ (snapshot : Nat × ς) (chunks : List (List RepEnv)) (rows : List (List Draw × List Nat)),
+      chunks.flatten = mkEnvsRepaired reps →
+      runPool (evalOne repairedEnv next limit) snapshot chunks = .ok rows →
+      rows.map (·.1) = (List.range reps).map (fun j => List.replicate (limit + 1) (drawRepaired j 2)) := by
+    intro snapshot chunks rows hfl hrun
+    have := runPool_map_of (π := fun r : List Draw × List Nat => r.1)
+      (h := fun env : RepEnv => List.replicate (limit + 1) (drawRepaired env.stream env.pos))
+      (fun st env st' r hr => (evalOne_repaired next limit st st' env r.1 r.2 hr).2.1) snapshot chunks rows hrun
+    rw [this, hfl, mkEnvsRepaired_eq, List.map_map]
+    rfl
+  refine ⟨pool, ?_⟩
+  intro procs s rows h
+  simp only [evaluateRepaired, evaluate] at h
+  by_cases hp : procs > 1
+  · simp only [hp, ↓reduceIte, evaluatePar, starmap, show procs ≠ 0 by omega] at h
+    exact pool _ _ rows (poolChunks_flatten _ (by omega)) h
+  · simp only [hp, ↓reduceIte] at h
+    cases hs : evaluateSeq repairedEnv repairedMk next limit reps (0, s) with
+    | error e => rw [hs] at h; cases h
+    | ok w =>
+      obtain ⟨st', rows'⟩ := w
+      rw [hs] at h
+      simp only [Except.ok.injEq] at h
+      subst h
+      have := evaluateSeq_repaired next limit reps 0 s st' rows' hs
+      simpa only [Nat.zero_add] using this
+
+/-- row 0 only (the gap at minimal information is that of draw `(j, 2)`) -/
+theorem repaired_draws_row0 (next : ς → RepEnv → Except Err (ς × Nat)) (limit reps procs : Nat) (s : ς)
+    (rows : List (List Draw × List Nat)) (h : evaluateRepaired next limit reps procs s = .ok rows) :
+    rows.map (fun r => r.1.head?) = (List.range reps).map (fun j => some (drawRepaired j 2)) := by
+  have := congrArg (List.map List.head?) ((repaired_draws next limit reps).2 procs s rows h)
+  simpa only [List.map_map, Function.comp_def, List.replicate_succ, List.head?_cons] using this
+
+/-- … and the call returns whenever the solver does (the repaired environment model never raises) -/
+theorem repaired_total (next : ς → RepEnv → Except Err (ς × Nat)) (hnext : ∀ s e, ∃ p, next s e = .ok p)
+    (limit reps procs : Nat) (s : ς) : ∃ rows, evaluateRepaired next limit reps procs s = .ok rows := by
+  have hep : ∀ (f : Nat) (s : ς) (e : RepEnv), ∃ w, episodes repairedEnv next f s e = .ok w := by
+    intro f
+    induction f with
+    | zero => intro s e; exact ⟨_, rfl⟩
+    | succ f ih =>
+      intro s e
+      obtain ⟨⟨s1, a⟩, hn⟩ := hnext s e
+      obtain ⟨⟨s2, gs, cs⟩, hr⟩ := ih s1 e
+      simp only [repairedEnv] at hr
+      simp only [episodes, hn, repairedEnv, Bool.false_eq_true, ↓reduceIte, hr]
+      exact ⟨_, rfl⟩
+  have hone : ∀ (st : Nat × ς) (env : RepEnv), ∃ p, evalOne repairedEnv next limit st env = .ok p := by
+    intro st env
+    obtain ⟨⟨s', gs, cs⟩, hw⟩ := hep limit st.2 (repairedEnv.reset env st.1).1
+    simp only [evalOne, hw]
+    exact ⟨_, rfl⟩
+  have hseq : ∀ (reps : Nat) (st : Nat × ς), ∃ w, evaluateSeq repairedEnv repairedMk next limit reps st = .ok w := by
+    intro reps
+    induction reps with
+    | zero => intro st; exact ⟨_, rfl⟩
+    | succ reps ih =>
+      intro st
+      obtain ⟨⟨st1, r⟩, h1⟩ := hone ((repairedMk st.1).2, st.2) (repairedMk st.1).1
+      obtain ⟨⟨st2, rest⟩, h2⟩ := ih st1
+      simp only [evaluateSeq, h1, h2]
+      exact ⟨_, rfl⟩
+  simp only [evaluateRepaired, evaluate]
+  by_cases hp : procs > 1
+  · simp only [hp, ↓reduceIte, evaluatePar, starmap, show procs ≠ 0 by omega]
+    exact runPool_total hone _ _
+  · obtain ⟨⟨st', rows⟩, hw⟩ := hseq reps (0, s)
+    exact ⟨rows, by simp only [hp, ↓reduceIte, hw]⟩
+
+/-- **C12_repaired_distinct** — distinct repetitions read distinct draws: never replays of one another
+    at the level of stream identities … -/
+theorem repaired_distinct {j j' : Nat} (h : j ≠ j') : drawRepaired j 2 ≠ drawRepaired j' 2 := by
+  intro heq
+  exact h (drawRepaired_inj.mp heq).1
+
+/-- … i.e. the draws of the `reps` repetitions are pairwise different, and none of them is a draw an
+    environment consumed at construction (positions 0 and 1 of any stream) -/
+theorem repaired_draws_nodup (reps : Nat) :
+    ((List.range reps).map (fun j => drawRepaired j 2)).Nodup ∧
+    ∀ j j' k, k < 2 → drawRepaired j 2 ≠ drawRepaired j' k := by
+  constructor
+  · refine List.Nodup.map ?_ List.nodup_range
+    intro a b hab
+    exact (drawRepaired_inj.mp hab).1
+  · intro j j' k hk heq
+    have := (drawRepaired_inj.mp heq).2
+    omega
+
+end repaired
+
+/-! ### repaired ⇒ isolated ⇒ schedule-free, for solvers without mutable state -/
+section repairedIsolated
+variable {α ε ρ ς : Type} [Neg α] [Zero α]
+
+/-- the solver has no mutable state that matters: the action it returns is a function `f` of the
+    environment alone (whatever it does to its own state `ς`) -/
+def Stateless (next : ς → ε → Except Err (ς × Nat)) (f : ε → Except Err Nat) : Prop :=
+  ∀ s e, (next s e).map (·.2) = f e
+
+/-- `f` as a solver with trivial state -/
+def pureSolver (f : ε → Except Err Nat) : Unit → ε → Except Err (Unit × Nat) :=
+  fun _ e => (f e).map (fun a => ((), a))
+
+omit [Zero α] in
+theorem episodes_stateless (E : EnvOps ε ρ α) (next : ς → ε → Except Err (ς × Nat)) (f : ε → Except Err Nat)
+    (hf : Stateless next f) :
+    ∀ (lim : Nat) (s : ς) (e : ε),
+      (episodes E next lim s e).map (·.2) = (episodes E (pureSolver f) lim () e).map (·.2) := by
+  intro lim
+  induction lim with
+  | zero => intro s e; rfl
+  | succ lim ih =>
+    intro s e
+    have hfe := hf s e
+    simp only [episodes, pureSolver]
+    cases hn : next s e with
+    | error err =>
+      rw [hn] at hfe
+      simp only [Except.map] at hfe
+      rw [← hfe]
+      rfl
+    | ok p =>
+      obtain ⟨s1, a⟩ := p
+      rw [hn] at hfe
+      simp only [Except.map] at hfe
+      rw [← hfe]
+      simp only [Except.map]
+      cases hs : E.step e a with
+      | error err => rfl
+      | ok q =>
+        obtain ⟨e1, r, d, c⟩ := q
+        simp only
+        cases d with
+        | true => rfl
+        | false =>
+          simp only [Bool.false_eq_true, ↓reduceIte]
+          have := ih s1 e1
+          cases h1 : episodes E next lim s1 e1 with
+          | error err =>
+            rw [h1] at this
+            cases h2 : episodes E (pureSolver f) lim () e1 with
+            | error err' => rw [h2] at this; simp only [Except.map, Except.error.injEq] at this; rw [this]
+            | ok w => rw [h2] at this; simp only [Except.map] at this; cases this
+          | ok w =>
+            obtain ⟨s2, gs, cs⟩ := w
+            rw [h1] at this
+            cases h2 : episodes E (pureSolver f) lim () e1 with
+            | error err' => rw [h2] at this; simp only [Except.map] at this; cases this
+            | ok w' =>
+              obtain ⟨u, gs', cs'⟩ := w'
+              rw [h2] at this
+              simp only [Except.map, Except.ok.injEq, Prod.mk.injEq] at this
+              obtain ⟨rfl, rfl⟩ := this
+              rfl
+
+/-- every environment whose `reset` draws from a PRIVATE source (the environment it returns does not
+    depend on the shared state `ρ`), evaluated with a stateless solver, is `Isolated` -/
+theorem isolated_of_private (E : EnvOps ε ρ α) (hreset : ∀ e r r', (E.reset e r).1 = (E.reset e r').1)
+    (next : ς → ε → Except Err (ς × Nat)) (f : ε → Except Err Nat) (hf : Stateless next f)
+    (limit : Nat) (r0 : ρ) :
+    Isolated E next limit (fun env => (evalOne E (pureSolver f) limit (r0, ()) env).map (·.2)) := by
+  intro st env
+  have hep := episodes_stateless E next f hf limit st.2 (E.reset env st.1).1
+  simp only [evalOne]
+  rw [hreset env r0 st.1]
+  cases h1 : episodes E next limit st.2 (E.reset env st.1).1 with
+  | error err =>
+    rw [h1] at hep
+    cases h2 : episodes E (pureSolver f) limit () (E.reset env st.1).1 with
+    | error err' => rw [h2] at hep; simp only [Except.map, Except.error.injEq] at hep; simp only [Except.map, hep]
+    | ok w => rw [h2] at hep; simp only [Except.map] at hep; cases hep
+  | ok w =>
+    obtain ⟨s2, gs, cs⟩ := w
+    rw [h1] at hep
+    cases h2 : episodes E (pureSolver f) limit () (E.reset env st.1).1 with
+    | error err' => rw [h2] at hep; simp only [Except.map] at hep; cases hep
+    | ok w' =>
+      obtain ⟨u, gs', cs'⟩ := w'
+      rw [h2] at hep
+      simp only [Except.map, Except.ok.injEq, Prod.mk.injEq] at hep
+      obtain ⟨rfl, rfl⟩ := hep
+      rfl
+
+end repairedIsolated
+
+section repairedSchedule
+variable {ς : Type}
+
+/-- the rows of a repetition as a function of its own environment (solver choice function `f`) -/
+def repairedRows (f : RepEnv → Except Err Nat) (limit : Nat) : RepEnv → Except Err (List Draw × List Nat) :=
+  fun env => (evalOne repairedEnv (pureSolver f) limit (0, ()) env).map (·.2)
+
+/-- **C12_repaired_isolated** — the model of the repaired code satisfies the hypothesis of
+    `isolated_schedule_free` for every solver without mutable state. -/
+theorem repaired_isolated (next : ς → RepEnv → Except Err (ς × Nat)) (f : RepEnv → Except Err Nat)
+    (hf : Stateless next f) (limit : Nat) :
+    Isolated repairedEnv next limit (repairedRows f limit) :=
+  isolated_of_private repairedEnv (fun _ _ _ => rfl) next f hf limit 0
+
+/-- **C12_repaired_schedule_free** — hence, for every solver without mutable state: every chunking of
+    the repaired task list gives the plain map over the environments, and `evaluate()` returns that
+    same value for EVERY `procs` — sequential branch (`procs ≤ 1`) and pool (`procs > 1`) alike. -/
+theorem repaired_schedule_free (next : ς → RepEnv → Except Err (ς × Nat)) (f : RepEnv → Except Err Nat)
+    (hf : Stateless next f) (limit reps : Nat) :
+    (∀ (snapshot : Nat × ς) (chunks : List (List RepEnv)), chunks.flatten = mkEnvsRepaired reps →
+        runPool (evalOne repairedEnv next limit) snapshot chunks
+          = mapE (repairedRows f limit) (mkEnvsRepaired reps)) ∧
+    (∀ (procs : Nat) (s : ς),
+        evaluateRepaired next limit reps procs s = mapE (repairedRows f limit) (mkEnvsRepaired reps)) := by
+  have hiso := repaired_isolated next f hf limit
+  have pool : ∀ (snapshot : Nat × ς) (chunks : List (List RepEnv)), chunks.flatten = mkEnvsRepaired reps →
+      runPool (evalOne repairedEnv next limit) snapshot chunks
+        = mapE (repairedRows f limit) (mkEnvsRepaired reps) := by
+    intro snapshot chunks hfl
+    rw [isolated_schedule_free repairedEnv next limit _ hiso, hfl]
+  refine ⟨pool, ?_⟩
+  intro procs s
+  simp only [evaluateRepaired, evaluate]
+  by_cases hp : procs > 1
+  · simp only [hp, ↓reduceIte, evaluatePar, starmap, show procs ≠ 0 by omega]
+    exact pool _ _ (poolChunks_flatten _ (by omega))
+  · simp only [hp, ↓reduceIte]
+    have hseq := isolated_seq_eq_par repairedEnv repairedMk next limit _ hiso
+      (fun st env st' r h => (evalOne_repaired next limit st st' env r.1 r.2 h).1) reps (0, s)
+    cases h2 : evaluateSeq repairedEnv repairedMk next limit reps (0, s) with
+    | error e => rw [h2] at hseq; simp only [Except.map] at hseq; simp only [mkEnvsRepaired, ← hseq]
+    | ok w =>
+      obtain ⟨st2, rest⟩ := w
+      rw [h2] at hseq
+      simp only [Except.map] at hseq
+      simp only [mkEnvsRepaired, ← hseq]
+
+/-- in particular the result is the same for any two process counts -/
+theorem repaired_procs_irrelevant (next : ς → RepEnv → Except Err (ς × Nat)) (f : RepEnv → Except Err Nat)
+    (hf : Stateless next f) (limit reps p q : Nat) (s : ς) :
+    evaluateRepaired next limit reps p s = evaluateRepaired next limit reps q s := by
+  rw [(repaired_schedule_free next f hf limit reps).2 p s, (repaired_schedule_free next f hf limit reps).2 q s]
+
+end repairedSchedule
+
+/-! ### the two models on the same instance (4 repetitions, 1 vs 2 processes) -/
+
+/-- hidden-game draw seen by each repetition under the repaired model (row 0 of `poolDrawsRepaired`) -/
+def drawsSeenRepaired (reps procs : Nat) : Option (List Draw) :=
+  (poolDrawsRepaired 0 reps procs).toOption.map (fun rows => rows.map (fun r => r.1.headD 0))
+
+/-- **before / after** on 4 repetitions: the model of the code before commit "fix: one child random
+    stream per environment" gives draws 2, 5, 8, 11 of the one shared stream with 1 process and draw 8
+    four times with 2 processes; the repaired model gives (0,2), (1,2), (2,2), (3,2) with 1 process, with
+    2 processes, and with 3 (chunks of one task) — four different hidden games, the same ones. -/
+theorem current_vs_repaired :
+    (drawsSeen 4 1 = some [2, 5, 8, 11] ∧ drawsSeen 4 2 = some [8, 8, 8, 8]) ∧
+    (drawsSeenRepaired 4 1 = some [drawRepaired 0 2, drawRepaired 1 2, drawRepaired 2 2, drawRepaired 3 2] ∧
+     drawsSeenRepaired 4 2 = some [drawRepaired 0 2, drawRepaired 1 2, drawRepaired 2 2, drawRepaired 3 2] ∧
+     drawsSeenRepaired 4 3 = drawsSeenRepaired 4 1 ∧
+     drawsSeenRepaired 16 2 = drawsSeenRepaired 16 1) := by
+  decide
+
+/-- non-vacuity of `repaired_schedule_free` / `repaired_draws`: a solver without mutable state (always
+    action 7), 2 steps, 4 repetitions, 1 and 2 processes: the same successful result, every gap row of
+    repetition j showing draw (j, 2). -/
+example :
+    evaluateRepaired (fun (_ : Unit) (_ : RepEnv) => .ok ((), 7)) 2 4 1 () =
+      evaluateRepaired (fun (_ : Unit) (_ : RepEnv) => .ok ((), 7)) 2 4 2 () ∧
+    (evaluateRepaired (fun (_ : Unit) (_ : RepEnv) => .ok ((), 7)) 2 4 2 ()).toOption =
+      some [([drawRepaired 0 2, drawRepaired 0 2, drawRepaired 0 2], [7, 7]),
+            ([drawRepaired 1 2, drawRepaired 1 2, drawRepaired 1 2], [7, 7]),
+            ([drawRepaired 2 2, drawRepaired 2 2, drawRepaired 2 2], [7, 7]),
+            ([drawRepaired 3 2, drawRepaired 3 2, drawRepaired 3 2], [7, 7])] := by
+  decide
+
+example : Stateless (fun (_ : Unit) (_ : RepEnv) => (.ok ((), 7) : Except Err (Unit × Nat))) (fun _ => .ok 7) :=
+  fun _ _ => rfl
+
+/-- the repair concerns the hidden-game generator only.  A solver WITH a random source of its own
+    (solvers/random.py — not `Stateless`) still shares it across the repetitions of a chunk and restarts
+    it in every chunk: under the repaired model the hidden games no longer depend on the process count,
+    the solver's draws still do (known finding C12 (b)). -/
+theorem repaired_solver_rng_still_shared :
+    (poolDrawsRepaired 2 3 1).toOption.map (fun rows => rows.map (·.2)) = some [[0, 1], [2, 3], [4, 5]] ∧
+    (poolDrawsRepaired 2 3 2).toOption.map (fun rows => rows.map (·.2)) = some [[0, 1], [0, 1], [0, 1]] ∧
+    (poolDrawsRepaired 2 3 1).toOption.map (fun rows => rows.map (·.1)) =
+      (poolDrawsRepaired 2 3 2).toOption.map (fun rows => rows.map (·.1)) := by
   decide
 
 end ICG.C12
